@@ -307,7 +307,8 @@ PLAN["C19"] = {
     "native_files": [{"name": "c19_reuse", "tiers": Q, "tests": {
         "second_dump_of_a_reused_writer_equals_a_fresh_one": H("B'", "MinidumpWriter::dump x2 on a live 3-thread child", "one reuse, idle target"),
         "reused_writer_with_another_blamed_thread": H("B'", "MinidumpWriter::dump x2, blamed thread changed in between", "4-thread child"),
-        "reused_writer_with_unresolvable_principal_address": H("B'", "MinidumpWriter::dump x2, principal address changed to one that resolves to nothing", "3-thread child")}}],
+        "reused_writer_with_unresolvable_principal_address": H("B'", "MinidumpWriter::dump x2, principal address changed to one that resolves to nothing", "3-thread child"),
+        "reused_writer_after_failed_requests": H("B'", "MinidumpWriter::dump x2, first request aborted by a hard error", "unreadable app memory; I/O error at destination write 4, 6, 9")}}],
     "trusted": ["macOS writer not touched (L4)"],
     "samples": ["stub of generate_dump asserts: memory_blocks.is_empty() && crashing_thread_context is None  [C19]"],
 }
